@@ -621,6 +621,22 @@ func c06Check(ctx *vfCtx, c c06Case) {
 	}) {
 		return
 	}
+	// (iii) the sender's server cannot be established (the caller's lookup fails): then it cannot have
+	// been checked either, and the event must not come out as verified — whoever else signed it
+	{
+		failing := func(spec.RoomID, spec.SenderID) (*spec.UserID, error) {
+			return nil, fmt.Errorf("c06: scripted sender lookup failure")
+		}
+		var ferr error
+		if vfCatch(ctx, "C06/lookup-fails", func() {
+			ferr = VerifyEventSignatures(c06Ctx(), pdu, KeyRing{KeyDatabase: c06NewDB(keys)}, failing)
+		}) {
+			return
+		}
+		if ferr == nil {
+			ctx.Fail("C06/verified-although-the-senders-server-is-unknown", "the sender lookup fails, yet VerifyEventSignatures succeeds for %s", jplain(ev))
+		}
+	}
 	now1 := time.Now().UnixMilli()
 
 	// oracle, at both ends of the interval in which the library can have read the clock
